@@ -85,13 +85,19 @@ def ct_arrays(table, dtype=np.uint8, interleave=False):
 RLE_LENGTHS = (1, 255, 256, 257, 65535, 65536, 600001)
 
 
+def _rle_lengths(s):
+    """RLE(1), RLE(2) use every run length; RLE(3) leaves out the 600 001-voxel run (three of them would be 1.8 M voxels per case)"""
+    return RLE_LENGTHS if s <= 2 else RLE_LENGTHS[:6]
+
+
 def rle_count(s, nlab=3):
-    return (nlab * nlab * len(RLE_LENGTHS)) ** s
+    return (nlab * nlab * len(_rle_lengths(s))) ** s
 
 
 def rle_pair(i, s, nlab=3, dtype=np.uint8):
     pred, ref = [], []
-    base = nlab * nlab * len(RLE_LENGTHS)
+    lengths = _rle_lengths(s)
+    base = nlab * nlab * len(lengths)
     segs = []
     for _ in range(s):
         d = i % base
@@ -100,7 +106,7 @@ def rle_pair(i, s, nlab=3, dtype=np.uint8):
         d //= nlab
         rl = d % nlab
         d //= nlab
-        ln = RLE_LENGTHS[d]
+        ln = lengths[d]
         segs.append((pl, rl, ln))
         pred.append(np.full(ln, pl, dtype=dtype))
         ref.append(np.full(ln, rl, dtype=dtype))
